@@ -336,57 +336,125 @@ Proof.
   rewrite Hval. rewrite u64_small by (unfold two64; lia). apply s64_small. unfold two63. lia.
 Qed.
 
-(* gnutar's format_number on an 8-byte field: octal below 8^s, base-256 from there on *)
-Theorem gnutar_number_exact_8 : forall v s rest,
-  (0 < s <= 8)%nat -> 0 <= v < 4611686018427387904 ->
-  (if v <? zpow 8 s then stops 8 rest else rest = []) ->
-  fst (gnutar_format_number v s 8) = 0 /\ tar_atol (snd (gnutar_format_number v s 8) ++ rest) = v.
+(* 12-byte base-256 field: exact for negative int64 values too *)
+Theorem base256_roundtrip_12_neg : forall v,
+  - two63 <= v < 0 -> tar_atol (snd (format_256 v 12)) = v.
 Proof.
-  intros v s rest Hs Hv Hrest. unfold gnutar_format_number.
-  destruct (v <? zpow 8 s) eqn:E.
-  - apply Z.ltb_lt in E.
-    assert (Hf : fst (gnutar_format_octal v s) = 0).
-    { unfold gnutar_format_octal. replace (v <? 0) with false by (symmetry; apply Z.ltb_ge; lia).
-      rewrite Z.div_small by lia. reflexivity. }
-    split; [assumption|].
-    pose proof (gnutar_format_octal_ok v s Hf) as Hok. cbv zeta in Hok.
-    replace (v <? 0) with false in Hok by (symmetry; apply Z.ltb_ge; lia).
-    destruct Hok as [_ Hb]. rewrite Hb.
-    assert (Hp : zpow 8 s <= zpow 8 8) by (unfold zpow; apply Z.pow_le_mono_r; lia).
-    change (zpow 8 8) with 16777216 in Hp.
-    assert (Hoct : tar_atol8 (enc (digits_be 8 s v) ++ rest) = v) by (apply octal_roundtrip_tar; try lia; assumption).
-    unfold tar_atol. destruct s as [|s]; [lia|].
-    rewrite digits_be_cons in * by lia. cbn [enc map app] in *.
-    assert (Hd : 0 <= (v / zpow 8 s) mod 8 < 8) by (apply Z.mod_pos_bound; lia).
-    replace (128 <=? 48 + (v / zpow 8 s) mod 8) with false by (symmetry; apply Z.leb_gt; lia).
-    exact Hoct.
-  - subst rest. rewrite app_nil_r. split; [reflexivity|]. apply base256_roundtrip_8. lia.
+  intros v Hv. unfold two63 in Hv. unfold format_256.
+  assert (Hz : forall k, (8 <= k <= 11)%nat -> (v / zpow 256 k) mod 256 = 255).
+  { intros k Hk.
+    assert (Hq : v / zpow 256 k = -1).
+    { assert (zpow 256 8 <= zpow 256 k) by (unfold zpow; apply Z.pow_le_mono_r; lia).
+      change (zpow 256 8) with 18446744073709551616 in H.
+      assert (0 < zpow 256 k) by (apply zpow_pos; lia).
+      symmetry. apply Z.div_unique with (r := v + zpow 256 k); lia. }
+    rewrite Hq. reflexivity. }
+  rewrite (digits_be_cons 256 11) by lia. rewrite (digits_be_cons 256 10) by lia.
+  rewrite (digits_be_cons 256 9) by lia. rewrite (digits_be_cons 256 8) by lia.
+  rewrite !Hz by lia. cbn [snd].
+  set (t := digits_be 256 8 v).
+  assert (Hlen : length t = 8%nat) by apply digits_be_length.
+  assert (Hval : be_fold 256 t 0 = v mod two64).
+  { unfold t. rewrite be_fold_digits_be by lia. reflexivity. }
+  unfold t in *. rewrite (digits_be_cons 256 7) in * by lia.
+  set (b0 := (v / zpow 256 7) mod 256) in *. set (t7 := digits_be 256 7 v) in *.
+  assert (Hb0 : 128 <= b0 < 256).
+  { unfold b0. change (zpow 256 7) with 72057594037927936. Z.div_mod_to_equations; lia. }
+  change (255 mod 128 + 128) with 255.
+  unfold tar_atol. change (128 <=? 255) with true.
+  unfold tar_atol256. cbn [length] in *.
+  assert (Hl7 : length t7 = 7%nat) by lia. rewrite Hl7.
+  change (255 mod 128) with 127. change (64 <=? 127) with true. cbv iota.
+  change (127 + 128) with 255.
+  cbn [Nat.sub a256_skip]. change (255 =? 255) with true. cbv iota.
+  replace (128 <=? b0) with true by (symmetry; apply Z.leb_le; lia). cbn [Bool.eqb negb].
+  rewrite fold_u64. replace (0 <? length (b0 :: t7))%nat with true by reflexivity.
+  rewrite (be_fold_acc 256 (b0 :: t7) UINT64_MAX). rewrite Hval. cbn [length]. rewrite Hl7.
+  change (zpow 256 8) with two64.
+  unfold u64. rewrite Z.add_comm. rewrite Z.mod_add by (unfold two64; lia). rewrite Z.mod_mod by (unfold two64; lia).
+  fold (u64 v). rewrite s64_u64. apply s64_small. unfold two63. lia.
 Qed.
 
-Theorem gnutar_number_exact_12 : forall v s rest,
-  (0 < s <= 12)%nat -> 0 <= v < two63 ->
-  (if v <? zpow 8 s then stops 8 rest else rest = []) ->
+Theorem base256_roundtrip_12_all : forall v, - two63 <= v < two63 -> tar_atol (snd (format_256 v 12)) = v.
+Proof.
+  intros v Hv. destruct (Z_lt_le_dec v 0).
+  - apply base256_roundtrip_12_neg. lia.
+  - apply base256_roundtrip_12. lia.
+Qed.
+
+(* gnutar's format_number: a zero result means the window decodes to the value.
+   8-byte window (uid, gid): octal in [0, 8^s), base-256 on the rest of [-2^62, 2^62), refused outside. *)
+Lemma gnutar_format_256_ok_8 : forall v, fst (gnutar_format_256 v 8) = 0 ->
+  - 4611686018427387904 <= v < 4611686018427387904 /\ snd (gnutar_format_256 v 8) = snd (format_256 v 8).
+Proof.
+  intros v. unfold gnutar_format_256. change (8 <? 9)%nat with true. change (2 ^ (8 * Z.of_nat 8 - 2)) with 4611686018427387904.
+  cbn [andb].
+  match goal with |- context [if ?c then _ else _] => destruct c eqn:E end; cbn [fst snd]; [intros H; exfalso; lia|].
+  intros _. apply orb_false_iff in E. destruct E as [E1 E2]. apply Z.leb_gt in E1. apply Z.ltb_ge in E2. split; [lia | reflexivity].
+Qed.
+
+Lemma gnutar_octal_branch : forall v s rest, (0 < s <= 12)%nat -> 0 <= v < zpow 8 s -> stops 8 rest ->
+  fst (gnutar_format_octal v s) = 0 /\ tar_atol (snd (gnutar_format_octal v s) ++ rest) = v.
+Proof.
+  intros v s rest Hs Hv Hst.
+  assert (Hf : fst (gnutar_format_octal v s) = 0).
+  { unfold gnutar_format_octal. replace (v <? 0) with false by (symmetry; apply Z.ltb_ge; lia).
+    rewrite Z.div_small by lia. reflexivity. }
+  split; [assumption|].
+  pose proof (gnutar_format_octal_ok v s Hf) as Hok. cbv zeta in Hok.
+  replace (v <? 0) with false in Hok by (symmetry; apply Z.ltb_ge; lia).
+  destruct Hok as [_ Hb]. rewrite Hb.
+  assert (Hp : zpow 8 s <= zpow 8 12) by (unfold zpow; apply Z.pow_le_mono_r; lia).
+  change (zpow 8 12) with 68719476736 in Hp.
+  assert (Hoct : tar_atol8 (enc (digits_be 8 s v) ++ rest) = v) by (apply octal_roundtrip_tar; try lia; assumption).
+  unfold tar_atol. destruct s as [|s]; [lia|].
+  rewrite digits_be_cons in * by lia. cbn [enc map app] in *.
+  assert (Hd : 0 <= (v / zpow 8 s) mod 8 < 8) by (apply Z.mod_pos_bound; lia).
+  replace (128 <=? 48 + (v / zpow 8 s) mod 8) with false by (symmetry; apply Z.leb_gt; lia).
+  exact Hoct.
+Qed.
+
+Theorem gnutar_number_ok_8 : forall v s rest,
+  (0 < s <= 8)%nat ->
+  (if (0 <=? v) && (v <? zpow 8 s) then stops 8 rest else rest = []) ->
+  fst (gnutar_format_number v s 8) = 0 ->
+  tar_atol (snd (gnutar_format_number v s 8) ++ rest) = v.
+Proof.
+  intros v s rest Hs Hrest. unfold gnutar_format_number.
+  destruct ((0 <=? v) && (v <? zpow 8 s)) eqn:E.
+  - apply andb_true_iff in E. destruct E as [E1 E2]. apply Z.leb_le in E1. apply Z.ltb_lt in E2. intros _.
+    apply gnutar_octal_branch; try lia; assumption.
+  - intros H. subst rest. rewrite app_nil_r. apply gnutar_format_256_ok_8 in H. destruct H as [Hv Hb].
+    rewrite Hb. apply base256_roundtrip_8. assumption.
+Qed.
+
+(* 12-byte window (size, mtime): every int64 is representable *)
+Theorem gnutar_number_ok_12 : forall v s rest,
+  (0 < s <= 12)%nat -> - two63 <= v < two63 ->
+  (if (0 <=? v) && (v <? zpow 8 s) then stops 8 rest else rest = []) ->
   fst (gnutar_format_number v s 12) = 0 /\ tar_atol (snd (gnutar_format_number v s 12) ++ rest) = v.
 Proof.
-  intros v s rest Hs Hv Hrest. unfold gnutar_format_number. unfold two63 in Hv.
-  destruct (v <? zpow 8 s) eqn:E.
-  - apply Z.ltb_lt in E.
-    assert (Hf : fst (gnutar_format_octal v s) = 0).
-    { unfold gnutar_format_octal. replace (v <? 0) with false by (symmetry; apply Z.ltb_ge; lia).
-      rewrite Z.div_small by lia. reflexivity. }
-    split; [assumption|].
-    pose proof (gnutar_format_octal_ok v s Hf) as Hok. cbv zeta in Hok.
-    replace (v <? 0) with false in Hok by (symmetry; apply Z.ltb_ge; lia).
-    destruct Hok as [_ Hb]. rewrite Hb.
-    assert (Hp : zpow 8 s <= zpow 8 12) by (unfold zpow; apply Z.pow_le_mono_r; lia).
-    change (zpow 8 12) with 68719476736 in Hp.
-    assert (Hoct : tar_atol8 (enc (digits_be 8 s v) ++ rest) = v) by (apply octal_roundtrip_tar; try lia; assumption).
-    unfold tar_atol. destruct s as [|s]; [lia|].
-    rewrite digits_be_cons in * by lia. cbn [enc map app] in *.
-    assert (Hd : 0 <= (v / zpow 8 s) mod 8 < 8) by (apply Z.mod_pos_bound; lia).
-    replace (128 <=? 48 + (v / zpow 8 s) mod 8) with false by (symmetry; apply Z.leb_gt; lia).
-    exact Hoct.
-  - subst rest. rewrite app_nil_r. split; [reflexivity|]. apply base256_roundtrip_12. unfold two63. lia.
+  intros v s rest Hs Hv Hrest. unfold gnutar_format_number.
+  destruct ((0 <=? v) && (v <? zpow 8 s)) eqn:E.
+  - apply andb_true_iff in E. destruct E as [E1 E2]. apply Z.leb_le in E1. apply Z.ltb_lt in E2.
+    apply gnutar_octal_branch; try lia; assumption.
+  - subst rest. rewrite app_nil_r. unfold gnutar_format_256. change (12 <? 9)%nat with false. cbn [andb].
+    split; [reflexivity|]. apply base256_roundtrip_12_all. assumption.
+Qed.
+
+(* and a uid or gid outside [-2^62, 2^62) is refused by the formatter *)
+Theorem gnutar_number_refuses_8 : forall v s, (0 < s <= 8)%nat ->
+  ~ (- 4611686018427387904 <= v < 4611686018427387904) -> fst (gnutar_format_number v s 8) = -1.
+Proof.
+  intros v s Hs Hv. unfold gnutar_format_number.
+  assert (zpow 8 s <= zpow 8 8) by (unfold zpow; apply Z.pow_le_mono_r; lia).
+  change (zpow 8 8) with 16777216 in H.
+  destruct ((0 <=? v) && (v <? zpow 8 s)) eqn:E.
+  - apply andb_true_iff in E. destruct E as [E1 E2]. apply Z.leb_le in E1. apply Z.ltb_lt in E2. lia.
+  - unfold gnutar_format_256. change (8 <? 9)%nat with true. change (2 ^ (8 * Z.of_nat 8 - 2)) with 4611686018427387904.
+    cbn [andb].
+    match goal with |- context [if ?c then _ else _] => replace c with true end; [reflexivity|].
+    symmetry. apply orb_true_iff. destruct (Z_lt_le_dec v 0); [right; apply Z.ltb_lt | left; apply Z.leb_le]; lia.
 Qed.
 
 (* ------------------------------------------------------------------ cpio odc / newc *)
